@@ -86,5 +86,19 @@ def run(ctx, prop):
             ctx.unresolved('R9', what, 'w_' + name, 'the compiling twin no longer builds (%s): witness is not meaningful on this tree' % t, key=key)
         else:
             ctx.bad('R9', what, 'w_' + name, 'the witness now COMPILES (or fails with a different error than %s): the guard it witnesses is gone. Offending line: %s' % (code, fail[:160]), key=key)
+    for name, props, code, what, setup, strong, pline, ctrl in getattr(_load_table(), 'A', []):
+        if prop not in props:
+            continue
+        n += 1
+        key = 'R9/const-assertion/%s' % name
+        f, t, c = res.get('w_%s_fail' % name), res.get('w_%s_twin' % name), res.get('w_%s_ctrl' % name)
+        if c != 'ok':
+            ctx.unresolved('R9', what, 'w_' + name, 'the control (same setup, trivially true assertion) does not build (%s): the harness no longer matches the public API' % c, key=key)
+        elif t != 'ok':
+            ctx.bad('R9', what, 'w_' + name, 'the compiler evaluates `%s` to false on this tree (the control with the same setup builds)' % pline, key=key)
+        elif f != 'ok':
+            ctx.unresolved('R9', what, 'w_' + name, 'the one-notch-stronger assertion also builds: the presets became more conservative; the property holds, the tightness control does not', key=key)
+        else:
+            ctx.ok('R9', what, 'w_' + name, '`%s` builds, `%s` fails with %s' % (pline, strong, code), key=key)
     ctx.extra['witnesses_run'] = n
     ctx.extra['witness_cache_hit'] = cached
